@@ -2,7 +2,7 @@
 
 Stage 1 (proof): Props/C15.v (paging independence, join laws, key <-> path bijection,
   prefix_offset exactness for every prefix value the caller may give: S3Client::new trims
-  trailing slashes, s3.rs:777, /repo commit 1405318).
+  trailing slashes, s3.rs:793, /repo commit 1405318).
 Stage 2 (direct search): the same generated histories are driven through the real library on a
   filesystem repository and on the in-process S3 stand-in (bucket root / nested prefix / prefix
   spelled with trailing slashes, only slashes, a leading slash, an inner double slash: all of
@@ -318,7 +318,7 @@ def plan(ctx):
                     if (i + j + ps) % 3 != 0 or ps == pages[(i + j) % 4]:
                         variants.append((pfx, ps))
         cases.append({"idx": i, "cfg": cfg, "ops": ops, "variants": variants})
-    # prefix spellings with slashes at the ends (the trailing ones are trimmed by S3Client::new, s3.rs:777;
+    # prefix spellings with slashes at the ends (the trailing ones are trimmed by S3Client::new, s3.rs:793;
     # until /repo commit 1405318 they were the known finding prefix-trailing-slash): a scripted preamble that
     # commits two versions of one object, commits and purges a second one, then a short generated history;
     # the filesystem side is opened under a root spelled with the same trailing slashes
@@ -356,21 +356,80 @@ def plan(ctx):
         cases.append({"idx": 2000 + j, "cfg": cfg, "ops": ops, "variants": variants, "overlap": True})
     # object roots that BOTH stores must refuse for a new object (FsOcflStore::validate_object_root, fs.rs:158-204;
     # S3OcflStore::validate_object_root, s3.rs:242-274, /repo commit 1c63a11 - before it S3 accepted them): nested
-    # within another object, within extensions/, with a `..` part.  Must-pass: same result class at every step, equal stores.
-    sets = [(3000, refused_root_histories())]
-    if os.environ.get("VERIF_C15_PENDING"):
-        # reported divergences awaiting the lead's disposition (see pending_histories); with the variable set they run
-        # as ordinary must-pass inputs, i.e. each one is reported as a VIOLATION with its replay file
-        sets.append((4000, pending_histories()))
+    # within another object, within extensions/, with a `..` part; ids whose mapped root is a plain directory or lies
+    # inside another object (fs since 01aa490 answers NotFound like S3); purges of ids that were never created and are
+    # mapped onto / into / above other objects (S3 guards since 900305c - before it S3 deleted those objects).
+    # Must-pass: same result class at every step, equal stores, equal read API.
+    sets = [(3000, refused_root_histories()), (3500, guarded_purge_histories())]
+    if os.environ.get("VERIF_C15_UNNORMALISED"):
+        # outside the hypothesis "object roots are normalised relative paths" (see unnormalised_root_histories);
+        # with the variable set they run as ordinary inputs and each one is reported as a VIOLATION with its replay file
+        sets.append((4000, unnormalised_root_histories()))
     for first, histories in sets:
         for j, (lay, ops, root) in enumerate(histories):
             base_cfg = next((c for c in cfgs if c["layout"] == lay), None)
             if base_cfg is None:
                 continue
-            cfg = dict(base_cfg, ext_staging=True, fresh_handle=False)
+            cfg = dict(base_cfg, ext_staging=True, fresh_handle=False, cdir="content")
             cases.append({"idx": first + j, "cfg": cfg, "ops": ops, "variants": [([None, "nested/pre"][j % 2], [1000, 2][j % 2])],
-                          "watch_root": root})
+                          "watch_root": root, "guards": True})
     return cases
+
+
+def _mk(oid, k=1, name="a.txt", root=None):
+    c = {"op": "commit", "id": oid}
+    if root:
+        c["object_root"] = root
+    return [{"op": "new", "id": oid}, {"op": "cp_ext", "id": oid, "files": [[name, k]], "dst": name, "recursive": False}, c]
+
+
+def refused_root_histories():
+    """(layout, ops, root of the object the LAST op tries to create)"""
+    mk = _mk
+    return [("0002", mk("obj1") + mk("obj1/sub", 2), "obj1/sub"),
+            ("0002", mk("coll/obj2") + mk("coll/obj2/x/y", 2), "coll/obj2/x/y"),
+            ("0002", mk("extensions/e1"), "extensions/e1"),
+            ("0002", mk("../out"), "../out"),
+            ("0002", mk("coll/obj2") + mk("coll/obj3", 2), "coll/obj3"),
+            ("none", mk("o1", 1, root="objs/o1") + mk("o2", 2, root="objs/o1/sub"), "objs/o1/sub"),
+            ("none", mk("o1", 1, root="../x"), "../x"),
+            ("none", mk("o1", 1, root="extensions/x"), "extensions/x"),
+            ("0002", mk("obj1/sub") + mk("obj1", 2), "obj1"),
+            ("0002", mk("obj1") + mk("obj1/v1/content", 2), "obj1/v1/content")]
+
+
+def guarded_purge_histories():
+    """commit X, then purge an id Y that was never created and whose layout-mapped root is related to X's root; then
+    purge X itself (which must still work) and a later re-creation"""
+    mk = _mk
+    pu = lambda oid: [{"op": "purge", "id": oid}]
+    return [("0002", mk("coll/obj1") + pu("coll") + pu("coll/obj1") + mk("coll", 3), None),   # directory other objects are stored beneath
+            ("0002", mk("obj1") + pu("obj1/v1") + pu("obj1"), None),                           # path inside another object
+            ("0002", mk("obj1") + pu("obj1/") + pu("obj1"), None),                            # another id, same root after trimming
+            ("0002", mk("obj1") + pu("extensions") + pu("extensions/0002-flat-direct-storage-layout"), None),
+            ("0002", mk("obj1") + pu("../obj1") + pu("x/../../y"), None),
+            ("0006", mk("urn:obj:1") + pu("other:1") + pu("urn:obj:1") + mk("other:1", 2), None),   # two ids, one root
+            ("0007", mk("urn:obj:001") + pu("zzz:001") + pu("urn:obj:001"), None),
+            ("0002", mk("obj1/sub") + mk("obj1", 2) + pu("obj1") + pu("obj1/sub"), None)]     # staged-only id above another object
+
+
+def unnormalised_root_histories():
+    """HYPOTHESIS of C15 as decided by the lead: object roots are normalised relative paths (no empty and no `.` part).
+    Outside it the stores differ on /repo HEAD 01aa490; run with VERIF_C15_UNNORMALISED=1 to see each as a violation:
+    the file-system store normalises such roots (Path::components) and stores the object at a/b resp. x, the S3 store
+    refuses them (validate_object_root, s3.rs:249-255) - layout 0002 ids `a//b`, `./x`, `a/./b`, explicit roots `a//b`, `./x`;
+    an id with a trailing slash under layout 0002 (`a/b/`) is stored alike at a/b by both, but the file-system store
+    reports object_root `a/b/` and storage paths `a/b//v1/...` where S3 reports `a/b` and `a/b/v1/...`;
+    an id with a leading slash under layout 0002 (`/a`): the file-system store refuses it (absolute path, IllegalState) at
+    commit and at purge, the S3 store trims the slash (s3.rs:492, 599) and creates the object at `a` resp. answers the purge Ok;
+    the ids `.` and `obj1/..` under layout 0002 (the path resolves to the storage root): purge is refused alike, but
+    validate_object validates the storage root itself as an object on the file system (E003, E063) and answers NotFound on S3.
+    (Roots with a `..` part are refused alike for create and purge: those inputs are in the must-pass sets.)"""
+    mk = _mk
+    pu = lambda oid: [{"op": "purge", "id": oid}]
+    return [("0002", mk("a//b"), "a//b"), ("0002", mk("./x"), "./x"), ("0002", mk("a/./b"), "a/./b"), ("0002", mk("a/b/"), None),
+            ("none", mk("o1", 1, root="a//b"), "a//b"), ("none", mk("o1", 1, root="./x"), "./x"),
+            ("0002", mk("/a"), None), ("0002", mk("obj1") + pu("/obj1"), None), ("0002", mk("obj1") + pu("."), None), ("0002", mk("obj1") + pu("obj1/.."), None)]
 
 
 OVERLAP = [
@@ -409,46 +468,6 @@ def overlap_history(rng, cfg, pool, roots, n_random):
     return ops
 
 
-def _mk(oid, k=1, name="a.txt", root=None):
-    c = {"op": "commit", "id": oid}
-    if root:
-        c["object_root"] = root
-    return [{"op": "new", "id": oid}, {"op": "cp_ext", "id": oid, "files": [[name, k]], "dst": name, "recursive": False}, c]
-
-
-def refused_root_histories():
-    """(layout, ops, root of the object the LAST op tries to create): the last commit must be refused on both sides"""
-    mk = _mk
-    return [("0002", mk("obj1") + mk("obj1/sub", 2), "obj1/sub"),
-            ("0002", mk("coll/obj2") + mk("coll/obj2/x/y", 2), "coll/obj2/x/y"),
-            ("0002", mk("extensions/e1"), "extensions/e1"),
-            ("0002", mk("../out"), "../out"),
-            ("0002", mk("coll/obj2") + mk("coll/obj3", 2), "coll/obj3"),          # accepted: sibling below a plain directory
-            ("none", mk("o1", 1, root="objs/o1") + mk("o2", 2, root="objs/o1/sub"), "objs/o1/sub"),
-            ("none", mk("o1", 1, root="../x"), "../x"),
-            ("none", mk("o1", 1, root="extensions/x"), "extensions/x")]
-
-
-def pending_histories():
-    """FS-vs-S3 differences of the current /repo (HEAD 1c63a11) reported to the lead, not yet decided; run with
-    VERIF_C15_PENDING=1.  D1: an id whose mapped root is an existing directory that is no object root - fs `new`/get
-    fail with General (inventory.json missing), S3 says NotFound / ok and refuses only at commit.  D2: S3 purge_object
-    (s3.rs:593-630) has none of the guards of FsOcflStore::purge_object (fs.rs:554-590): it deletes every key below the
-    mapped root, whoever owns it.  D3: roots with an empty or `.` part - fs normalises and accepts, S3 refuses."""
-    mk = _mk
-    pu = lambda oid: [{"op": "purge", "id": oid}]
-    return [("0002", mk("obj1/sub") + mk("obj1", 2), "obj1"),                         # D1
-            ("0002", mk("obj1") + mk("obj1/v1/content", 2), "obj1/v1/content"),      # D1 (only when the content directory is named `content`)
-            ("0002", mk("coll/obj1") + pu("coll"), None),                            # D2: directory other objects are stored beneath
-            ("0002", mk("obj1") + pu("obj1/v1"), None),                              # D2: path inside another object
-            ("0002", mk("obj1") + pu("obj1/"), None),                                # D2: root of an object with a different id
-            ("0002", mk("obj1") + pu("extensions"), None),                           # D2: the storage root's extensions directory
-            ("0006", mk("urn:obj:1") + pu("other:1"), None),                         # D2: two ids, one root
-            ("0007", mk("urn:obj:001") + pu("zzz:001"), None),                       # D2
-            ("0002", mk("a//b"), "a//b"), ("0002", mk("./x"), "./x"), ("0002", mk("a/./b"), "a/./b"), ("0002", mk("a/b/"), "a/b/"),   # D3
-            ("none", mk("o1", 1, root="a//b"), "a//b"), ("none", mk("o1", 1, root="./x"), "./x")]
-
-
 # --------------------------------------------------------------------------- Coq terms
 
 def coq_tree(files, empty_dirs=()):
@@ -483,7 +502,7 @@ def list_log(entries):
 
 def coq_terms(run):
     """one Coq term per S3 run: list of booleans.  The prefix is handed over as the caller gave it:
-    the checkers apply S3.client_prefix (s3.rs:777) themselves"""
+    the checkers apply S3.client_prefix (s3.rs:793) themselves"""
     keys = sorted(run["s3_raw"], key=lambda k: k.encode("utf-8"))
     cp = run["prefix"] or ""
     ks = coq_list([coq_str(k) for k in keys])
@@ -512,7 +531,7 @@ def coq_terms(run):
     names.append("storage_list")
     for pg in run.get("purges", []):
         bkt = lambda d: coq_list(["(%s, %s)" % (coq_str(k), coq_str(d[k])) for k in sorted(d, key=lambda k: k.encode("utf-8"))])
-        parts.append("check_purge %s %s %s %d %s %s" % (coq_str(cp), coq_str(pg["root"]), bkt(pg["before"]), pg["class"],
+        parts.append("check_purge %s %s %s %s %d %s %s" % (coq_str(cp), coq_str(pg["id"]), coq_str(pg["root"]), bkt(pg["before"]), pg["class"],
                                                       coq_list([coq_str(k) for k in pg["deleted"]]), bkt(pg["after"])))
         names.append("purge")
     rc = run.get("rootcheck")
@@ -524,7 +543,30 @@ def coq_terms(run):
 
 
 def bucket_tokens(d):
-    return {k: hashlib.sha256(v).hexdigest()[:8] for k, v in d.items()}
+    """content tokens for the purge model: an inventory file is handed over as "I" + the id it names
+    (CheckS3.tok_inv_id), everything else by hash"""
+    out = {}
+    for k, v in d.items():
+        tok = "B" + hashlib.sha256(v).hexdigest()[:8]
+        if k.rsplit("/", 1)[-1] == "inventory.json":
+            try:
+                i = json.loads(v.decode("utf-8")).get("id")
+                if isinstance(i, str):
+                    tok = "I" + i
+            except (ValueError, AttributeError):
+                pass
+        out[k] = tok
+    return out
+
+
+def layout_root(layout, oid):
+    """what the storage layout maps an id to, for the flat layouts of the guarded-purge histories
+    (0002 flat-direct: the id; 0006 flat-omit-prefix with delimiter ':': what follows the last delimiter)"""
+    if layout == "0002":
+        return oid
+    if layout == "0006":
+        return oid.rsplit(":", 1)[-1]
+    return None
 
 
 # --------------------------------------------------------------------------- execution
@@ -598,12 +640,15 @@ def run_case(ctx, case, stubs):
                 base = s3stub.norm_prefix(prefix)
                 for k, op in enumerate(ops):
                     watch = None
-                    if op["op"] == "purge" and len(rec["purges"]) < (6 if case.get("overlap") else 2):
-                        # observation for the model of purge_object: the committed root of the object and the bucket before
+                    if op["op"] == "purge" and len(rec["purges"]) < (6 if case.get("overlap") or case.get("guards") else 2):
+                        # observation for the model of purge_object: the root the store looks up for the id (the committed
+                        # root of an existing object, else what the layout maps the id to) and the bucket before
                         g = s3.s.call(dict(cmd="get_object", h=s3.h, id=op["id"], version=None))
                         root = norm_path(g["ok"].get("object_root"), base) if "ok" in g else None
-                        if isinstance(root, str) and root in s3.object_roots():
-                            watch = {"root": root, "before": bucket_tokens(stub.dump(bucket))}
+                        if not (isinstance(root, str) and root in s3.object_roots()):
+                            root = layout_root(cfg["layout"], op["id"]) if case.get("guards") else None
+                        if isinstance(root, str):
+                            watch = {"id": op["id"], "root": root, "before": bucket_tokens(stub.dump(bucket))}
                     last_create = case.get("watch_root") is not None and k == len(ops) - 1 and op["op"] == "commit"
                     if last_create:
                         rec["rootcheck"] = {"root": case["watch_root"], "keys": sorted(stub.dump(bucket), key=lambda x: x.encode("utf-8"))}
@@ -742,7 +787,7 @@ def run(ctx):
             dist["list_requests"] += len(r["scan"]["lists"])
             dist["truncated_pages"] += sum(1 for x in r["scan"]["lists"] if x[3] and x[3]["truncated"])
         if kc != "true":
-            common.corr_break(ctx, "S3.client_prefix (s3.rs:777) disagrees with the driver's s3stub.norm_prefix", {"prefix": r["prefix"]})
+            common.corr_break(ctx, "S3.client_prefix (s3.rs:793) disagrees with the driver's s3stub.norm_prefix", {"prefix": r["prefix"]})
         vals = [v.strip() for v in val.strip("[]").split(";")] if val.strip("[]").strip() else []
         dist["model_checks"] += len(vals)
         inp = {"cfg": r["cfg"], "ops": r["ops"], "prefix": r["prefix"], "page_size": r["page_size"], "fs_suffix": r["fs_suffix"],
@@ -761,13 +806,16 @@ def run(ctx):
     ctx.coverage["traces_validated_against_impl"] = dist["runs"]
     ctx.coverage["distribution"] = dist
     ctx.assumptions.append("the S3 stand-in vplib/s3stub.py (ListObjectsV2 paging by offset tokens, GET/PUT/DELETE, multipart) replaces real S3; HTTP, rusoto, tokio, request signing, eventual consistency and service limits are outside the model")
+    ctx.assumptions.append("hypothesis: object ids map to normalised relative object roots (no empty, `.` or `..` part, no slash at either end; `..` roots are refused alike for create and purge and are generated): the file-system store "
+                           "normalises other spellings (a//b, ./x; reports `a/b/` untrimmed) while the S3 store refuses resp. trims them; such ids / explicit "
+                           "roots are generated only with VERIF_C15_UNNORMALISED=1 (checks/c15.py unnormalised_root_histories)")
     ctx.assumptions.append("keys are compared for well-formed names only (no control characters: ListObjectsV2 answers are XML)")
     return common.finish_with_proof(ctx, proof,
         rule="histories from vplib.hist.gen_history (create, stage, commit, upgrade, purge; all layouts incl. none) run on a filesystem "
              "repository and on the S3 stand-in per (prefix, page size) variant (prefixes: none, plain, nested, and spelled with trailing / only / "
              "leading / inner double slashes, all must-pass; plus flat layouts 0002 / 0006 / explicit roots with object roots that are string "
              "prefixes of one another - obj1, obj10, obj1-copy - with purge and re-creation; object roots both stores must refuse for a new object: "
-             "nested in another object, in extensions/, with a `..` part); distinct = distinct (history, prefix, page size); "
+             "nested in another object, in extensions/, with a `..` part; purges of never-created ids mapped onto, into or above other objects); distinct = distinct (history, prefix, page size); "
              "non-trivial = more than two successful steps; every run compared step by step, store against store, read API against read API")
 
 
